@@ -45,6 +45,7 @@ class Ctx(object):
         self.kf = findings.load()
         self.violations = []        # (signature, replay path)
         self.kf_hits = {}
+        self.extra = []
         self.ev = {'states': 0, 'transitions': 0, 'traces_validated_against_impl': 0, 'samples': [],
                    'mc_runs': [], 'facts_judged_by_tlc': 0, 'facts_offered_by_drivers': 0,
                    'rejected_facts': 0, 'configurations': [c.describe() for c in self.cfgs],
@@ -70,6 +71,10 @@ class Ctx(object):
         """A rejected event.  occurrences: [(cfgname, provenance-string)].
         Each occurrence either matches an open known finding or is a violation."""
         self.ev['rejected_facts'] += 1
+        if event.get('x') == 1:
+            # behaviour the specification covers beyond the listed properties: reported, never a verdict
+            self.extra.append((event, occurrences[:2]))
+            return
         if os.environ.get('AVEL_REJLOG'):
             with open(os.environ['AVEL_REJLOG'], 'a') as f:
                 f.write(json.dumps({'prop': self.prop, 'event': event, 'occ': occurrences}) + '\n')
@@ -128,6 +133,13 @@ class Ctx(object):
             ev, cfgname, prov = d['example']
             print('KNOWN-FINDING: property=%s %s %s (%d rejected events; e.g. %s in %s %s)' % (
                 self.prop, k, d['finding'].what, d['n'], brief(ev)[:260], cfgname, prov))
+        groups = {}
+        for ev, occ in self.extra:
+            key = (ev.get('e') or ev.get('o'), (occ[0][1] or '').split(':')[0].split('.')[0] if occ else '')
+            groups.setdefault(key, [0, ev, occ])[0] += 1
+        for (what, unit), (cnt, ev, occ) in sorted(groups.items())[:12]:
+            print('EXTRA: (beyond property %s, not a verdict) %d deviating %s event(s) on %s, e.g. %s at %s' % (
+                self.prop, cnt, what, unit, brief(ev)[:260], occ[:1]))
         for v in self.violations:
             print('VIOLATION property=%s replay=%s' % (self.prop, v['path']))
             print('  %d rejected event(s) like %s at %s' % (v['count'], brief(v['event']), v['occ'][:3]))
@@ -137,6 +149,7 @@ class Ctx(object):
         if not cov['samples']:
             cov['samples'] = ['(no events)']
         cov['known_findings_matched'] = {k: d['n'] for k, d in self.kf_hits.items()}
+        cov['extra_deviations_beyond_the_property'] = len(self.extra)
         cov['states'] = max(1, cov['states'])
         cov['transitions'] = max(1, cov['transitions'])
         evd = {'property_id': self.prop, 'tier': self.tier, 'seed': self.seed, 'level': level,
